@@ -212,6 +212,9 @@ void fresh(fcppt::log::optional_level const &root, char const cfg)
   context = std::make_unique<fcppt::log::context>(
       root,
       fcppt::enum_::array_init<fcppt::log::level_stream_array>([cfg](fcppt::log::level const l) {
+        // one of the six streams of every context - chosen by the operation line - travels through a special member
+        if (static_cast<unsigned>(l) != sm_op_salt % level_count)
+          return fcppt::log::level_stream(sinks[static_cast<std::size_t>(l)], stream_formatter(cfg, l));
         return route_stream(
             fcppt::log::level_stream(sinks[static_cast<std::size_t>(l)], stream_formatter(cfg, l)),
             sm_route(12U + static_cast<unsigned>(l)));
